@@ -188,6 +188,8 @@ def run_case(case):
             import xgi
             if isinstance(r, (xgi.Hypergraph, xgi.DiHypergraph)):
                 result = {"net": dump_net(r)}
+            elif isinstance(r, xgi.core.views.IDView):
+                result = {"val": enc(list(r))}  # a (sub-)view is observed as the list of its ids
             else:
                 result = {"val": enc(r)}
         except BaseException as ex:  # noqa
